@@ -78,9 +78,11 @@ type caseT struct {
 	sync   string // free gate late gl
 	up     string // ok r1
 	static []string
-	ips    map[string]ipScript
-	ipOrd  []string
-	evs    []evT
+	// the parser runs with ignore-host (metrics only: an event keeps its host: tags and its sender address)
+	ignoreHost bool
+	ips        map[string]ipScript
+	ipOrd      []string
+	evs        []evT
 }
 
 func (c *caseT) backends() int {
@@ -109,6 +111,9 @@ func renderAttr(a attr) string {
 
 func renderCase(c *caseT) string {
 	items := []string{fmt.Sprintf("cfg %s %d %d %d %d %s %s", c.mode, c.nb, c.c, c.snd, b2i(c.cloud), c.sync, c.up)}
+	if c.ignoreHost {
+		items = append(items, "ih")
+	}
 	if len(c.static) > 0 {
 		ts := []string{"st"}
 		for _, t := range c.static {
@@ -198,6 +203,8 @@ func parseCase(line string) (*caseT, error) {
 			continue
 		}
 		switch it[0] {
+		case "ih":
+			c.ignoreHost = true
 		case "st":
 			for _, t := range it[1:] {
 				s, err := hx.UnS(t)
@@ -642,7 +649,7 @@ func runCase(c *caseT) (summary string, logLine string) {
 
 	// ---- sources
 	dgCh := make(chan []*statsd.Datagram)
-	parser := statsd.NewDatagramParser(dgCh, "", false, 0, top, 0, false, quiet)
+	parser := statsd.NewDatagramParser(dgCh, "", c.ignoreHost, 0, top, 0, false, quiet)
 	for i := 0; i < c.snd; i++ {
 		go parser.Run(ctx)
 	}
@@ -1039,7 +1046,7 @@ func escText(r *hx.Rng) string {
 var keys = []string{"", "k1", "agg key", "a:b", "é"}
 var srcTypes = []string{"", "nagios", "my apps", "s:t"}
 var hosts = []string{"", "spoofed-host", "10.9.9.9"}
-var tagPool = []string{"", "t:1", "t:2", "env:prod", "a", "region:us", "é:ü", "dup", "s:10.0.0.1", "x:y:z"}
+var tagPool = []string{"", "t:1", "t:2", "env:prod", "a", "region:us", "é:ü", "dup", "s:10.0.0.1", "x:y:z", "host:web1", "host:"}
 var ipPool = []string{"10.0.0.1", "10.0.0.2", "192.168.1.77", "fe80::1", "host-a"}
 var dates = []uint64{0, 1, 5, 1234567890, 1 << 40, 1<<62 + 3, 9223372036854775807}
 
@@ -1136,6 +1143,7 @@ func gen(args []string) {
 		c.c = r.Range(1, 8)
 		c.snd = r.Range(1, 8)
 		c.cloud = r.Chance(7, 10)
+		c.ignoreHost = r.Chance(1, 4)
 		c.sync = []string{"free", "free", "free", "sat", "gate", "late", "gl"}[r.Intn(7)]
 		nev := r.Range(1, maxEv)
 		if r.Chance(1, 10) {
